@@ -253,6 +253,19 @@ CheckReturn(P, T, sm, s, ln) ==
                    : n \in {P.ids[i] : i \in 1..Len(P.ids)}}
        ELSE {})
       \cup
+      (* ... and what a consumer received from a node (plain / recurrent parameters) is what was saved for that node *)
+      (IF kind = "value"
+       THEN UNION {LET b == s.log[j]
+                       nd == Node(P, b[2])
+                   IN  UNION {LET src == nd.params[q].node
+                                  got == {b[3][i][2] : i \in {x \in 1..Len(b[3]) : b[3][x][1] = nd.params[q].kw}}
+                              IN  IF nd.params[q].kind \in {"input", "rec"} /\ src # P.input
+                                     /\ \E gt \in got : ~\E x \in 1..Len(s.log) : IsSV(s.log[x]) /\ s.log[x][2] = src /\ s.log[x][3] = gt
+                                  THEN {"C19.value"} ELSE {}
+                              : q \in 1..Len(nd.params)}
+                   : j \in {x \in 1..Len(s.log) : IsBS(s.log[x])}}
+       ELSE {})
+      \cup
       (* retry policy: every required invocation happened exactly the configured number of times *)
       (IF kind = "value" /\ ~T.amb /\ sr[1] = "V"
        THEN UNION {LET c == Count(s.log, LAMBDA y : IsBS(y) /\ y[2] = x[1] /\ y[3] = x[2])
